@@ -309,7 +309,8 @@ def gen_tamper(rng, prot_is_request, sender, recipient, seq_used):
     if k < 0.56: return ["optset", bytes(rng.randrange(256) for _ in range(rng.choice([0, 1, 2, 3, 5, 9]))).hex()]
     if k < 0.60: return ["optset", rng.choice(["10", "1905", "0e01020304050607", "0f", "06000000000000", "20", "28", "29", "1900", "190101", "1801", "09", "0900"])]
     if k < 0.88 and prot_is_request:
-        f = rng.choice(["piv+1", "piv-1", "piv0pad", "pivrand", "kid", "kiddrop", "kidext", "ctx", "ctxdrop", "ctxadd", "pivdrop", "group"])
+        f = rng.choice(["piv+1", "piv-1", "piv0pad", "pivrand", "kid", "kiddrop", "kidext", "ctx", "ctxdrop", "ctxadd", "pivdrop", "group",
+                        "ctxempty", "ctxempty", "kidempty", "ctxtrunc", "ctxext"])
         npiv, nkid, nctx = piv, kid, ctx
         if f == "piv+1": npiv = minbytes(seq_used + 1) or b"\0"
         elif f == "piv-1": npiv = minbytes(max(seq_used - 1, 0)) or b"\0"; npiv = npiv if npiv != piv else b"\x01"
@@ -322,11 +323,16 @@ def gen_tamper(rng, prot_is_request, sender, recipient, seq_used):
         elif f == "ctxdrop": nctx = None
         elif f == "ctxadd": nctx = ctx if ctx is not None else (H(recipient["idctx"]) if recipient["idctx"] is not None and rng.random() < 0.5 else b"\x01")
         elif f == "pivdrop": npiv = None
+        elif f == "ctxempty": nctx = b""            # degenerate values: a zero-length ID context / kid (replaced or injected)
+        elif f == "kidempty": nkid = b""
+        elif f == "ctxtrunc": nctx = ctx[:-1] if ctx else b"\x00"
+        elif f == "ctxext": nctx = (ctx or b"") + b"\x00"
         v = build_oscore_option(npiv, nkid, nctx)
         if f == "group": v = bytes([(v[0] if v else 0) | 0x20]) + v[1:]
         return ["optset", v.hex()]
     if k < 0.88:
-        f = rng.choice(["addpiv", "addkid", "addkidwrong", "addctx", "pivrand", "empty", "group", "pivpad", "pivpad"])
+        f = rng.choice(["addpiv", "addkid", "addkidwrong", "addctx", "pivrand", "empty", "group", "pivpad", "pivpad", "addctxempty", "addctxempty", "addkidempty", "addctxwrong"])
+        own = piv if rng.random() < 0.5 else None      # responses carry their own PIV or none; the injected field goes with either shape
         if f == "pivpad": v = build_oscore_option((b"\0" * rng.randint(1, 5 - len(piv)) + piv) if len(piv) < 5 else piv[1:], kid if sender.get("send_kid") else None, None)
         elif f == "addpiv": v = build_oscore_option(rng.choice([piv, b"\x00", minbytes(seq_used + 1) or b"\0"]), None, None)
         elif f == "addkid": v = build_oscore_option(None, kid, None)
@@ -334,6 +340,9 @@ def gen_tamper(rng, prot_is_request, sender, recipient, seq_used):
         elif f == "addctx": v = build_oscore_option(None, None, ctx if ctx is not None else b"\x01")
         elif f == "pivrand": v = build_oscore_option(bytes(rng.randrange(256) for _ in range(rng.randint(1, 5))), None, None)
         elif f == "empty": v = b""
+        elif f == "addctxempty": v = build_oscore_option(own, None, b"")
+        elif f == "addkidempty": v = build_oscore_option(own, b"", None)
+        elif f == "addctxwrong": v = build_oscore_option(own, None, (ctx or b"") + b"\x01")
         else: v = b"\x20"
         return ["optset", v.hex()]
     if k < 0.93: return ["code", rng.choice([2, 5]) if prot_is_request else rng.choice([65, 68, 69, 128, 132, 160])]
